@@ -20,3 +20,20 @@ Proof.
          {| s_graph := []; s_locals := [[(x, (VInt 0, false))]]; s_scoped := []; s_params := [] |}, (polls0 None).
   split; [vm_compute; reflexivity|]. split; [apply U_base; exact I|]. split; reflexivity.
 Qed.
+
+(* the same for the lazy "WHICH statement" theorems: `forced e` := exists STATE, origin state e.  It holds of an error that cites a
+   location (999, 999) / node 12345 existing in no file and no run (whatever the file fl and whenever the library can fail):
+   so the disjunct `forced t fl call e` of lazy_stmt_error_cites_statement / lazy_exec_error_cites_statement / lazy_run_error_cites does
+   not tie the cited context to the run; that link is only given by lazy_error_ctx_valid (valid_ctx) and lazy_created_values_cite_statement. *)
+From TSG Require Import Model.Lazy Proofs.CiteEval Proofs.CiteExec.
+Definition dfake : stmt_ctx := {| sc_stmt := (999, 999); sc_stanza := (888, 888); sc_node := 12345 |}.
+Goal forall fl0, forced Props.C20.ex_tree fl0 Props.C20.ex_call (EInContext (CtxStmts [dfake]) EUndefinedFunction).
+Proof.
+  intros fl0.
+  set (s := {| l_graph := []; l_locals := [[]];
+               l_store := [{| th_state := TUnforced (LCall [102] []); th_dbg := dfake |}];
+               l_scoped := []; l_edges := []; l_attrs := []; l_prints := []; l_params := []; l_prev := [] |}).
+  exists s. eapply (O_thunk _ _ _ _ _ 0 dfake EUndefinedFunction); [reflexivity| |reflexivity].
+  split; [apply U_base; exact I|]. eexists 3%nat, _, s, (polls0 None).
+  split; [apply same_dbgs_refl|]. split; [reflexivity|]. split; [reflexivity|]. vm_compute. reflexivity.
+Qed.
